@@ -1,4 +1,4 @@
-import NoteSeqVerif.Model.C09
+import NoteSeqVerif.Proofs.C09
 /-! C09 — property theorems only.  `Gen.*` definitions are regenerated from the Python source
 on every run; a change to the code changes the statement that is checked here. -/
 namespace NSV.C09
@@ -182,7 +182,134 @@ theorem perf_default_in_range (bins ms lo hi : Int) (hc : PerfCfg bins ms lo hi)
 example : PerfCfg 32 100 21 108 ∧ (⟨TIME_SHIFT, 1, 100⟩ : Range) ∈ perfRanges 32 100 21 108 := by
   unfold PerfCfg perfRanges; simp
 
-/-! ## Multi-drum encoding: the generated default table, all `2^9` classes (whole finite domain) -/
+/-! ## Multi-drum encoding
+
+First the generic theorems, for ANY table of pairwise-disjoint non-empty pitch lists
+(`DisjointTable`, `NonEmptyTable` in `Proofs/C09.lean`); then the generated default table is shown
+to be such a table (`decide` over the table), so they apply to it; the original whole-domain
+evaluation over the default table's `2^9` classes is kept as well. -/
+
+/-- decode ∘ encode: every index below `2^len` decodes to a pitch set that encodes back to it
+(with either setting of `ignore_unknown_drums`) -/
+theorem drum_decode_encode (t : List (List Nat)) (hd : DisjointTable t) (hne : NonEmptyTable t)
+    (ign : Bool) (i : Nat) (hi : i < 2 ^ t.length) :
+    ∃ ps, drumDecode t i = .ok ps ∧ drumEncodeE t ign ps = .ok i := by
+  refine ⟨_, drumDecode_ok hne i hi, ?_⟩
+  generalize hps : (List.range t.length).filterMap
+    (fun j => if i.testBit j then (t.getD j []).head? else none) = ps
+  have hmem : ∀ p, p ∈ ps ↔ ∃ j, j < t.length ∧ i.testBit j = true ∧ (t.getD j []).head? = some p := by
+    intro p
+    rw [← hps, List.mem_filterMap]
+    constructor
+    · rintro ⟨j, hj, h⟩
+      by_cases hb : i.testBit j
+      · exact ⟨j, by simpa using hj, hb, by simpa [hb] using h⟩
+      · simp [hb] at h
+    · rintro ⟨j, hj, hb, h⟩
+      exact ⟨j, by simpa using hj, by simpa [hb] using h⟩
+  have hknown : ps.any (fun p => (classOf t p).isNone) = false := by
+    rw [Bool.eq_false_iff]
+    intro h
+    obtain ⟨p, hp, hnone⟩ := List.any_eq_true.mp h
+    obtain ⟨j, hj, _, hh⟩ := (hmem p).mp hp
+    have := (classOf_isNone_iff t p).mp hnone (t.getD j []) (by rw [getD_of_lt hj]; exact List.getElem_mem hj)
+    exact this (List.mem_of_head? hh)
+  unfold drumEncodeE
+  rw [hknown, Bool.and_false]
+  simp only [Bool.false_eq_true, if_false, Except.ok.injEq]
+  rw [drumEncode_eq_powSum]
+  apply Nat.eq_of_testBit_eq
+  intro k
+  rw [testBit_powSum]
+  rcases Nat.lt_or_ge k t.length with hk | hk
+  · simp only [hk, decide_true, Bool.true_and]
+    rw [Bool.eq_iff_iff, hit_iff hd]
+    constructor
+    · rintro ⟨p, hp, hpk⟩
+      obtain ⟨j, _, hb, hh⟩ := (hmem p).mp hp
+      have : j = k := disjoint_index hd (List.mem_of_head? hh) hpk
+      subst this; exact hb
+    · intro hb
+      have hc : t[k] ≠ [] := hne _ (List.getElem_mem hk)
+      obtain ⟨p, r, hpr⟩ := List.exists_cons_of_ne_nil hc
+      have hh : (t.getD k []).head? = some p := by rw [getD_of_lt hk, hpr]; rfl
+      exact ⟨p, (hmem p).mpr ⟨k, hk, hb, hh⟩, List.mem_of_head? hh⟩
+  · have : decide (k < t.length) = false := by simp; omega
+    rw [this, Bool.false_and]
+    symm
+    apply Nat.testBit_lt_two_pow
+    have := Nat.pow_le_pow_right (n := 2) (by omega) hk
+    omega
+
+/-- encode ∘ decode: every pitch set (known or unknown pitches, any order, repetitions allowed)
+encodes to an index below `2^len` which decodes to the first pitch of exactly the classes hit -/
+theorem drum_encode_decode (t : List (List Nat)) (hd : DisjointTable t) (hne : NonEmptyTable t)
+    (s : List Nat) :
+    ∃ j, drumEncodeE t true s = .ok j ∧ j < 2 ^ t.length ∧ drumDecode t j = .ok (hitFirsts t s) := by
+  refine ⟨drumEncode t s, by simp [drumEncodeE], ?_, ?_⟩
+  · rw [drumEncode_eq_powSum]; exact powSum_lt _ _
+  · have hlt : drumEncode t s < 2 ^ t.length := by rw [drumEncode_eq_powSum]; exact powSum_lt _ _
+    rw [drumDecode_ok hne _ hlt, hitFirsts, ← filterMap_range_getD]
+    congr 1
+    apply filterMap_congr'
+    intro k hk
+    have hk : k < t.length := by simpa using hk
+    rw [drumEncode_eq_powSum, testBit_powSum]
+    simp only [hk, decide_true, Bool.true_and]
+    have : (s.any (fun p => classOf t p == some k)) = ((t.getD k []).any (fun p => s.contains p)) := by
+      rw [Bool.eq_iff_iff, hit_iff hd]
+      simp only [List.any_eq_true, List.contains_iff_mem]
+      constructor
+      · rintro ⟨p, h1, h2⟩; exact ⟨p, h2, h1⟩
+      · rintro ⟨p, h1, h2⟩; exact ⟨p, h2, h1⟩
+    rw [this]
+
+/-- "same drum classes": re-encoding the canonical representative gives the same class index -/
+theorem drum_canonical_same_classes (t : List (List Nat)) (hd : DisjointTable t) (hne : NonEmptyTable t)
+    (s : List Nat) : drumEncodeE t true (hitFirsts t s) = drumEncodeE t true s := by
+  obtain ⟨j, he, hj, hdec⟩ := drum_encode_decode t hd hne s
+  obtain ⟨ps, hdec', he'⟩ := drum_decode_encode t hd hne true j hj
+  rw [hdec] at hdec'
+  cases hdec'
+  rw [he, he']
+
+/-- `ignore_unknown_drums=False`: `DrumsEncodingError` exactly when some pitch is in no class (any
+table); otherwise the result is the one with the flag on -/
+theorem drum_unknown_raises (t : List (List Nat)) (s : List Nat) :
+    (drumEncodeE t false s = .error "DrumsEncodingError" ↔ ∃ p, p ∈ s ∧ ∀ c, c ∈ t → p ∉ c) ∧
+    ((¬ ∃ p, p ∈ s ∧ ∀ c, c ∈ t → p ∉ c) → drumEncodeE t false s = drumEncodeE t true s) := by
+  have key : s.any (fun p => (classOf t p).isNone) = true ↔ ∃ p, p ∈ s ∧ ∀ c, c ∈ t → p ∉ c := by
+    simp only [List.any_eq_true, classOf_isNone_iff]
+  unfold drumEncodeE
+  by_cases h : s.any (fun p => (classOf t p).isNone) = true
+  · simp [h, key.mp h]
+  · have h' := mt key.mpr h
+    simp [h, h']
+
+
+example : DisjointTable [[36, 35], [38, 40], [42]] ∧ NonEmptyTable [[36, 35], [38, 40], [42]] ∧
+    drumEncodeE [[36, 35], [38, 40], [42]] true [35, 40, 99] = .ok 3 ∧
+    hitFirsts [[36, 35], [38, 40], [42]] [35, 40, 99] = [36, 38] ∧
+    drumEncodeE [[36, 35], [38, 40], [42]] false [35, 40, 99] = .error "DrumsEncodingError" := by
+  unfold DisjointTable NonEmptyTable; decide
+
+/-- the shipped `DEFAULT_DRUM_TYPE_PITCHES` (regenerated from the source on every run) is a table of
+pairwise-disjoint non-empty pitch lists -/
+theorem drum_default_table_ok : DisjointTable drumTable ∧ NonEmptyTable drumTable := by
+  unfold DisjointTable NonEmptyTable; decide +kernel
+
+/-- … so the generic theorems hold for the default encoding: all `2^9` classes, -/
+theorem drum_default_decode_encode (ign : Bool) (i : Nat) (hi : i < 2 ^ drumTable.length) :
+    ∃ ps, drumDecode drumTable i = .ok ps ∧ drumEncodeE drumTable ign ps = .ok i :=
+  drum_decode_encode drumTable drum_default_table_ok.1 drum_default_table_ok.2 ign i hi
+
+/-- … and all drum-pitch sets -/
+theorem drum_default_encode_decode (s : List Nat) :
+    ∃ j, drumEncodeE drumTable true s = .ok j ∧ j < 2 ^ drumTable.length ∧
+      drumDecode drumTable j = .ok (hitFirsts drumTable s) :=
+  drum_encode_decode drumTable drum_default_table_ok.1 drum_default_table_ok.2 s
+
+/-- whole-domain evaluation over the generated default table (kept from the first version) -/
 def drumRoundTrip (table : List (List Nat)) (i : Nat) : Bool :=
   match drumDecode table i with
   | .ok ps => drumEncode table ps == i
@@ -190,6 +317,201 @@ def drumRoundTrip (table : List (List Nat)) (i : Nat) : Bool :=
 
 theorem drum_decode_encode_default :
     ∀ i, i < 2 ^ drumTable.length → drumRoundTrip drumTable i = true := by
+  decide +kernel
+
+/-! ## Chord one-hot encodings (structured symbols; the regular-expression layer is modelled and
+run against the real parser by the correspondence, see `harness/c09.py`) -/
+
+/-- the 12 names of `_PITCH_CLASS_MAPPING` are spelled with pitch class = their index -/
+theorem chord_name_table : pitchClassMapping.length = 12 ∧
+    ∀ r : Nat, r < 12 → pitchClassMapping[r]?.map namePitchClass = some (.ok (r : Int)) := name_table
+
+/-- decode ∘ encode for all 25 classes of `MajorMinorChordOneHotEncoding`: index `i` decodes to
+`NO_CHORD` or to `_PITCH_CLASS_MAPPING[k] + suffix`; reading that name back as a chord symbol
+(`structured`: root letter + accidentals, kind abbreviation = suffix) and encoding gives `i` -/
+theorem mm_decode_encode (i : Int) (h0 : 0 ≤ i) (h1 : i < mmNumClasses) :
+    ∃ d ev, mmDecode i = .ok d ∧ structured d = some ev ∧ mmEncode ev = .ok i := by
+  have := mm_table i.toNat (by omega)
+  rw [Int.toNat_of_nonneg h0] at this
+  unfold mmRoundTrip at this
+  split at this
+  · cases this
+  · rename_i d hd
+    split at this
+    · cases this
+    · rename_i ev hev
+      exact ⟨d, ev, hd, hev, this⟩
+
+/-- encode ∘ decode for `MajorMinorChordOneHotEncoding`: `NO_CHORD` and every symbol whose quality is
+major or minor encode into `[0, num_classes)` and decode to a name with the same root pitch class
+and the same quality (`NO_CHORD` to `NO_CHORD`) -/
+theorem mm_encode_decode (ev : ChordEvent) (rq : Option (Int × Nat)) (h : rootQuality ev = .ok rq)
+    (hq : ∀ r q, rq = some (r, q) → q = CHORD_QUALITY_MAJOR ∨ q = CHORD_QUALITY_MINOR) :
+    ∃ i, mmEncode ev = .ok i ∧ 0 ≤ i ∧ i < mmNumClasses ∧ mmDecodeRQ i = .ok rq := by
+  rw [mmEncode_eq, h]
+  cases rq with
+  | none => exact ⟨0, rfl, by decide, by decide, by decide⟩
+  | some p =>
+    obtain ⟨r, q⟩ := p
+    obtain ⟨hr0, hr1⟩ := root_range h
+    have ht := mm_rq_table r.toNat (by omega)
+    rw [Int.toNat_of_nonneg hr0] at ht
+    have hn : mmNumClasses = 25 := by decide
+    have hnpo : NOTES_PER_OCTAVE = 12 := by decide
+    rcases hq r q rfl with rfl | rfl
+    · exact ⟨r + 1, by simp, by omega, by omega, ht.1⟩
+    · refine ⟨r + NOTES_PER_OCTAVE + 1, ?_, by omega, by omega, ht.2⟩
+      have : CHORD_QUALITY_MINOR ≠ CHORD_QUALITY_MAJOR := by decide
+      simp [this]
+
+/-- every other quality is rejected with `ChordEncodingError`; an error of the symbol parser
+(`ChordSymbolError` from an illegal modification) propagates unchanged -/
+theorem mm_encode_rejects (ev : ChordEvent) :
+    (∀ r q, rootQuality ev = .ok (some (r, q)) → q ≠ CHORD_QUALITY_MAJOR → q ≠ CHORD_QUALITY_MINOR →
+      mmEncode ev = .error "ChordEncodingError") ∧
+    (∀ e, rootQuality ev = .error e → mmEncode ev = .error e) := by
+  refine ⟨fun r q h h1 h2 => ?_, fun e h => ?_⟩
+  · rw [mmEncode_eq, h]; simp [h1, h2]
+  · rw [mmEncode_eq, h]
+
+/-- index `r + 1` decodes to (root pitch class `r`, major), index `r + 12 + 1` to (`r`, minor) -/
+theorem mm_decode_root_quality : ∀ r : Nat, r < 12 →
+    mmDecodeRQ ((r : Int) + 1) = .ok (some ((r : Int), CHORD_QUALITY_MAJOR)) ∧
+    mmDecodeRQ ((r : Int) + NOTES_PER_OCTAVE + 1) = .ok (some ((r : Int), CHORD_QUALITY_MINOR)) := mm_rq_table
+
+/-- decode ∘ encode for all 49 classes of `TriadChordOneHotEncoding` -/
+theorem triad_decode_encode (i : Int) (h0 : 0 ≤ i) (h1 : i < triadNumClasses) :
+    ∃ d ev, triadDecode i = .ok d ∧ structured d = some ev ∧ triadEncode ev = .ok i := by
+  have := triad_table i.toNat (by omega)
+  rw [Int.toNat_of_nonneg h0] at this
+  unfold triadRoundTrip at this
+  split at this
+  · cases this
+  · rename_i d hd
+    split at this
+    · cases this
+    · rename_i ev hev
+      exact ⟨d, ev, hd, hev, this⟩
+
+/-- index `r + 12 k + 1` decodes to (root pitch class `r`, k-th of major/minor/augmented/diminished) -/
+theorem triad_decode_root_quality : ∀ r : Nat, r < 12 → ∀ k : Nat, k < 4 →
+    triadDecodeRQ ((r : Int) + (k : Int) * NOTES_PER_OCTAVE + 1) =
+      .ok (some ((r : Int), triadQualities.getD k CHORD_QUALITY_OTHER)) := triad_rq_table
+
+/-- encode ∘ decode for `TriadChordOneHotEncoding`: `NO_CHORD` and every symbol with a major, minor,
+augmented or diminished triad encode into `[0, num_classes)` and decode to a name with the same
+root pitch class and quality -/
+theorem triad_encode_decode (ev : ChordEvent) (rq : Option (Int × Nat)) (h : rootQuality ev = .ok rq)
+    (hq : ∀ r q, rq = some (r, q) → q ∈ triadQualities) :
+    ∃ i, triadEncode ev = .ok i ∧ 0 ≤ i ∧ i < triadNumClasses ∧ triadDecodeRQ i = .ok rq := by
+  rw [triadEncode_eq, h]
+  cases rq with
+  | none => exact ⟨0, rfl, by decide, by decide, by decide⟩
+  | some p =>
+    obtain ⟨r, q⟩ := p
+    obtain ⟨hr0, hr1⟩ := root_range h
+    have ht := triad_rq_table r.toNat (by omega)
+    rw [Int.toNat_of_nonneg hr0] at ht
+    have hn : triadNumClasses = 49 := by decide
+    have hnpo : NOTES_PER_OCTAVE = 12 := by decide
+    have hne : CHORD_QUALITY_MINOR ≠ CHORD_QUALITY_MAJOR ∧ CHORD_QUALITY_AUGMENTED ≠ CHORD_QUALITY_MAJOR ∧
+        CHORD_QUALITY_AUGMENTED ≠ CHORD_QUALITY_MINOR ∧ CHORD_QUALITY_DIMINISHED ≠ CHORD_QUALITY_MAJOR ∧
+        CHORD_QUALITY_DIMINISHED ≠ CHORD_QUALITY_MINOR ∧ CHORD_QUALITY_DIMINISHED ≠ CHORD_QUALITY_AUGMENTED := by
+      decide
+    have hq' := hq r q rfl
+    simp only [triadQualities, List.mem_cons, List.not_mem_nil, or_false] at hq'
+    rcases hq' with rfl | rfl | rfl | rfl
+    · refine ⟨r + 1, by simp, by omega, by omega, ?_⟩
+      have := ht 0 (by omega); simpa [triadQualities] using this
+    · refine ⟨r + NOTES_PER_OCTAVE + 1, by simp [hne.1], by omega, by omega, ?_⟩
+      have := ht 1 (by omega); simpa [triadQualities] using this
+    · refine ⟨r + 2 * NOTES_PER_OCTAVE + 1, by simp [hne.2.1, hne.2.2.1], by omega, by omega, ?_⟩
+      have := ht 2 (by omega); simpa [triadQualities] using this
+    · refine ⟨r + 3 * NOTES_PER_OCTAVE + 1, by simp [hne.2.2.2.1, hne.2.2.2.2.1, hne.2.2.2.2.2], by omega, by omega, ?_⟩
+      have := ht 3 (by omega); simpa [triadQualities] using this
+
+/-- every other quality is rejected with `ChordEncodingError`; parser errors propagate -/
+theorem triad_encode_rejects (ev : ChordEvent) :
+    (∀ r q, rootQuality ev = .ok (some (r, q)) → q ∉ triadQualities →
+      triadEncode ev = .error "ChordEncodingError") ∧
+    (∀ e, rootQuality ev = .error e → triadEncode ev = .error e) := by
+  refine ⟨fun r q h hq => ?_, fun e h => ?_⟩
+  · rw [triadEncode_eq, h]
+    simp only [triadQualities, List.mem_cons, List.not_mem_nil, or_false, not_or] at hq
+    simp [hq.1, hq.2.1, hq.2.2.1, hq.2.2.2]
+  · rw [triadEncode_eq, h]
+
+
+/-- F#m7 (minor quality) is class 6 + 12 + 1; Bbb5(add3) has root 9 and a major triad; a sus4 chord is
+rejected by both encoders; `Cmaj(add3)` is a parser error that propagates -/
+example : rootQuality (.sym 'F' 1 ['m', '7'] []) = .ok (some (6, CHORD_QUALITY_MINOR)) ∧
+    mmEncode (.sym 'F' 1 ['m', '7'] []) = .ok 19 ∧
+    rootQuality (.sym 'B' (-2) ['5'] [⟨0, 0, 3⟩]) = .ok (some (9, CHORD_QUALITY_MAJOR)) ∧
+    triadEncode (.sym 'C' 0 ['o', '7'] []) = .ok 37 ∧
+    mmEncode (.sym 'C' 0 ['o', '7'] []) = .error "ChordEncodingError" ∧
+    triadEncode (.sym 'C' 0 ['s', 'u', 's', '4'] []) = .error "ChordEncodingError" ∧
+    rootQuality (.sym 'C' 0 ['m', 'a', 'j'] [⟨0, 0, 3⟩]) = .error "ChordSymbolError" := by
+  decide +kernel
+
+/-! ## Note-density one-hot encoding -/
+
+/-- decode ∘ encode on every class index `0 … len(boundaries)` -/
+theorem density_decode_encode (bs : List Rat) (hc : DensCfg bs) (i : Int) (h0 : 0 ≤ i)
+    (h1 : i < densNumClasses bs) :
+    ∃ v, densDecode bs i = .ok v ∧ (densEncode bs v : Int) = i := by
+  obtain ⟨hs, hp⟩ := hc
+  unfold densNumClasses at h1
+  by_cases hi : i = 0
+  · subst hi
+    refine ⟨0, by simp [densDecode], ?_⟩
+    cases bs with
+    | nil => rfl
+    | cons d ds =>
+      rw [densEncode_cons]
+      have : (0 : Rat) < d := hp d (by simp)
+      simp [this]
+  · obtain ⟨k, rfl⟩ : ∃ k : Nat, i = (k : Int) + 1 := ⟨(i - 1).toNat, by omega⟩
+    have hk : k < bs.length := by omega
+    refine ⟨bs[k], ?_, ?_⟩
+    · unfold densDecode
+      rw [if_neg hi]
+      have : (k : Int) + 1 - 1 = (k : Int) := by omega
+      rw [this, pyIndex_nat _ _ hk]
+    · rw [densEncode_boundary bs hs k hk]; omega
+
+/-- encode ∘ decode: every density `x ≥ 0` lands in a class `j ≤ len(boundaries)`, and decoding `j`
+gives the lower bound of `x`'s bin: `0` for the first bin, otherwise boundary `j-1`, with
+`lower bound ≤ x < boundary j` (no upper bound for the last bin).  Holds for every boundary list. -/
+theorem density_encode_decode (bs : List Rat) (x : Rat) (hx : 0 ≤ x) :
+    densEncode bs x < densNumClasses bs ∧
+    ∃ v, densDecode bs (densEncode bs x : Int) = .ok v ∧ v ≤ x ∧
+      (densEncode bs x = 0 → v = 0) ∧
+      (0 < densEncode bs x → bs[densEncode bs x - 1]? = some v) ∧
+      (∀ b, bs[densEncode bs x]? = some b → x < b) := by
+  obtain ⟨h1, h2, h3⟩ := densEncode_spec bs x
+  generalize densEncode bs x = j at *
+  refine ⟨by unfold densNumClasses; omega, ?_⟩
+  have hnext : ∀ b, bs[j]? = some b → x < b := by
+    intro b hb
+    obtain ⟨hj, rfl⟩ := List.getElem?_eq_some_iff.mp hb
+    exact h3 hj
+  cases j with
+  | zero => exact ⟨0, by simp [densDecode], hx, fun _ => rfl, fun h => by omega, hnext⟩
+  | succ k =>
+    have hk : k < bs.length := by omega
+    refine ⟨bs[k], ?_, h2 k hk (by omega), fun h => by omega, fun _ => by simp [hk], hnext⟩
+    unfold densDecode
+    have hne : ¬ (((k + 1 : Nat) : Int) = 0) := by omega
+    rw [if_neg hne]
+    have : ((k + 1 : Nat) : Int) - 1 = (k : Int) := by omega
+    rw [this, pyIndex_nat _ _ hk]
+
+example : DensCfg [1, 2, 4, 8, 16, 32, 64] := by
+  unfold DensCfg; decide
+
+
+example : densEncode [1, 2, 4, 8] 2 = 2 ∧ densDecode [1, 2, 4, 8] 2 = .ok 2 ∧
+    densEncode [1, 2, 4, 8] (7/2) = 2 ∧ densEncode [1, 2, 4, 8] 100 = 4 ∧ densEncode [1, 2, 4, 8] 0 = 0 := by
   decide +kernel
 
 end NSV.C09
